@@ -9,6 +9,16 @@ use solana_zk_sdk::encryption::{
 };
 use std::mem::{size_of, ManuallyDrop};
 
+thread_local! {
+    /// when set, the value is dropped while a panic unwinds through its owner (`std::thread::panicking()` is true)
+    static UNWIND: std::cell::Cell<bool> = const { std::cell::Cell::new(false) };
+}
+
+struct DropGuard<T>(*mut ManuallyDrop<T>);
+impl<T> Drop for DropGuard<T> {
+    fn drop(&mut self) { unsafe { ManuallyDrop::drop(&mut *self.0) } }
+}
+
 /// drop `v` in place and report whether `secret` (or any 4-byte window of it with at least two non-zero
 /// bytes) survives at the same place in its storage
 fn drop_and_inspect<T>(v: T, secret: &[u8]) -> String {
@@ -16,7 +26,15 @@ fn drop_and_inspect<T>(v: T, secret: &[u8]) -> String {
     let p = &*m as *const T as *const u8;
     let n = size_of::<T>();
     let before: Vec<u8> = (0..n).map(|i| unsafe { std::ptr::read_volatile(p.add(i)) }).collect();
-    unsafe { ManuallyDrop::drop(&mut m) };
+    if UNWIND.with(|u| u.get()) {
+        let addr = &mut m as *mut ManuallyDrop<T> as usize;
+        let _ = std::panic::catch_unwind(std::panic::AssertUnwindSafe(|| {
+            let _g = DropGuard::<T>(addr as *mut ManuallyDrop<T>);
+            panic!("drop while unwinding");
+        }));
+    } else {
+        unsafe { ManuallyDrop::drop(&mut m) };
+    }
     let after: Vec<u8> = (0..n).map(|i| unsafe { std::ptr::read_volatile(p.add(i)) }).collect();
     if secret.iter().all(|b| *b == 0) {
         return "wiped".into(); // an all-zero secret is indistinguishable from wiped storage
@@ -44,6 +62,13 @@ fn sc(b: &[u8]) -> Option<Scalar> {
 
 pub fn op_drop(a: &[&str]) -> String {
     let [ty, how, h] = a else { return "bad-op".into() };
+    // `<how>-unwind`: the same value, dropped by a panic unwinding through its owner
+    if let Some(base) = how.strip_suffix("-unwind") {
+        UNWIND.with(|u| u.set(true));
+        let r = op_drop(&[ty, base, h]);
+        UNWIND.with(|u| u.set(false));
+        return r;
+    }
     let Some(b) = unhex(h) else { return "bad-op".into() };
     match (*ty, *how) {
         ("secret", "decoded") => match ElGamalSecretKey::try_from(b.as_slice()) { Ok(k) => { let s = k.as_bytes().to_vec(); drop_and_inspect(k, &s) } Err(_) => "bad-op".into() },
